@@ -47,9 +47,17 @@ impl Visitor for Rewriter {
             if path.starts_with(format!("std{}", main_separator)) {
                 return;
             }
-            if path.is_relative() {
-                def.path.fragment = self.base.join(path).to_string_lossy().to_string().into();
-            }
+            // Normalize so that every spelling of a path is the same cache
+            // key and the same entry on the import stack.
+            let path = if path.is_relative() {
+                self.base.join(path)
+            } else {
+                path
+            };
+            def.path.fragment = crate::path::normalize_absolute(path)
+                .to_string_lossy()
+                .to_string()
+                .into();
         }
     }
 }
